@@ -73,7 +73,8 @@ def build(job):
     if part == 0:
         pairs = [(1, 1), (2, 1), (1, 2), (r - 1, 1), (0, 1), (1, 0), (r, 1), (rng.randrange(1, r), rng.randrange(1, r))]
     else:
-        pairs = [(rng.randrange(1, r), rng.randrange(1, r)), (2, 3), (r - 1, r - 1), (r + 1, 2), (3, r - 2)]
+        pairs = [((1 << 300) + (1 << 256) + rng.randrange(1, r), 3),        # a scalar wider than a 256-bit word
+                 (rng.randrange(1, r), rng.randrange(1, r)), (2, 3), (r - 1, r - 1), (r + 1, 2), (3, r - 2)]
         if not quick:
             pairs += [(rng.randrange(1, r), rng.randrange(1, r)) for _ in range(3)]
     one_o = t.prod("one", oname, lambda: opt.FQ12.one(), gt=True)
